@@ -280,6 +280,24 @@ func H17ConstMean() {
 	vndAssert(m.Mean == v, "constant-sample-mean-between-min-and-max")
 }
 
+// H17ConstMeanValues: the same for a concrete family of values that are not exactly
+// representable (decided by evaluation alone, so it does not depend on the solver's
+// floating-point budget; the solver picks the member).
+func H17ConstMeanValues() {
+	n := vndParam("n")
+	v := []float64{0.1, 0.7, 12.3, 1e-310, 3.3e300, -0.3}[vndChoice("value", 6)]
+	vals := make([]float64, n)
+	for i := range vals {
+		vals[i] = v
+	}
+	m := &Metrics{Unit: "ns/op", Values: vals}
+	m.computeStats()
+	vndReach("h17:const-values")
+	vndAssert(len(m.RValues) == n, "constant-sample-keeps-every-value")
+	vndAssert(m.Min == v && m.Max == v, "constant-sample-min-max")
+	vndAssert(m.Mean == v, "constant-sample-mean-between-min-and-max")
+}
+
 // H17Groups: with SplitBy, every (group, benchmark) metric holds exactly the
 // values of the results carrying that label and name, in input order.
 func H17Groups() {
